@@ -7,7 +7,7 @@ from typing import Any, Dict, List, Optional
 from . import terms as T
 from . import progdb as _progdb
 from .progdb import _sig_of, AnalysisError, call_name
-from .values import (Columns, DefaultDict, ClassRef, Each, EnumRef, ExtMod, Frame, FuncRef, GenCall, GroupBy, Obj, PyTuple, Ser, to_term)
+from .values import (Columns, DefaultDict, ClassRef, Each, EnumRef, ExtMod, Frame, FuncRef, GenCall, GroupBy, Obj, PyTuple, ReMatch, Ser, to_term)
 
 _CMP = {"Lt": "<", "LtE": "<=", "Gt": ">", "GtE": ">=", "Eq": "==", "NotEq": "!=", "Is": "==", "IsNot": "!="}
 _CMP_METH = {"lt": "<", "le": "<=", "gt": ">", "ge": ">=", "eq": "==", "ne": "!="}
@@ -161,6 +161,8 @@ class Model:
             if attr == "__members__":
                 return {k: ("enum", v.qualname, k) for k in v.members}
             return ("attr", ("class", v.qualname), attr)
+        if isinstance(v, ReMatch):
+            return ("rematch_method", v, attr)
         if isinstance(v, tuple) and len(v) == 4 and v[0] == "ite" and all(isinstance(x, tuple) and x and x[0] in ("enum", "ite") for x in v[2:4]):
             # an attribute of a conditional value whose branches are enum members: the conditional of the attributes
             return T.ite(v[1], to_term(self.getattr(v[2], attr, node)), to_term(self.getattr(v[3], attr, node)))
@@ -485,6 +487,11 @@ class Model:
                     self.log("inline", node, callee=f"{m.mod.name}:{m.qualname}")
                     return I.call_function(m, pos, kw, node)
             return ("call", callee.name) + tuple(to_term(x) for x in pos)
+        if isinstance(callee, tuple) and len(callee) == 3 and callee[0] == "rematch_method" and isinstance(callee[1], ReMatch):
+            if callee[2] in ("group", "groups", "start", "end", "span") and all(isinstance(x, (int, str)) for x in pos) and not kw:
+                r_ = getattr(callee[1].m, callee[2])(*pos)
+                return PyTuple(list(r_)) if isinstance(r_, tuple) else r_
+            return T.opaque(f"match.{callee[2]}")
         if isinstance(callee, tuple) and callee and callee[0] == "ntclass":
             o = Obj(f"{callee[1]}#{I.new_id()}", attrs=dict(zip(callee[2], pos)))
             o.attrs.update(kw)
@@ -495,6 +502,20 @@ class Model:
         if isinstance(callee, ExtMod):
             return self.ops.external(callee.name, pos, kw, node)
         if isinstance(callee, tuple) and callee and callee[0] == "attr" and isinstance(callee[1], tuple) and callee[1] and callee[1][0] == "regex":
+            # a compiled pattern applied to CONCRETE strings: the library's own result (sub / subn on literals; match-style calls stay symbolic tests)
+            if callee[2] in ("match", "search", "fullmatch") and T.is_const(callee[1][1]) and isinstance(callee[1][1][1], str) and len(pos) == 1 and isinstance(pos[0], str) and not kw:
+                import re as _re
+                try:
+                    m_ = getattr(_re, callee[2])(callee[1][1][1], pos[0])
+                    return None if m_ is None else ReMatch(m_)
+                except _re.error:
+                    pass
+            if callee[2] == "sub" and T.is_const(callee[1][1]) and isinstance(callee[1][1][1], str) and len(pos) == 2 and all(isinstance(x, str) for x in pos) and not kw:
+                import re as _re
+                try:
+                    return _re.sub(callee[1][1][1], pos[0], pos[1])
+                except _re.error:
+                    pass
             return ("re", callee[2], callee[1][1]) + tuple(to_term(x) for x in pos)
         if isinstance(callee, tuple) and callee and callee[0] == "attr" and len(callee) == 3 and callee[2] == "__getitem__" and len(pos) == 1:
             return ("getitem", callee[1], to_term(pos[0]))             # d.__getitem__(k) is d[k]
